@@ -311,6 +311,103 @@ def kpm_calls(rng, p):
                  what=f"kpm block={b} lam={list(lam)} nexp={nexp} atol={atol}")]
 
 
+def second_quant_session(rng, sid, p):
+    """solve_sylvester_2nd_quant judged as an operator identity on a Fock window (Trace_Fock)."""
+    import sympy
+    from pymablock.number_ordered_form import NumberOperator
+    from pymablock.number_ordered_form import NumberOrderedForm as NOF
+    from pymablock.second_quantization import solve_sylvester_2nd_quant
+    from sympy.physics.quantum import Dagger
+
+    from . import core_nof
+
+    modes_all = [[("boson", "a")], [("boson", "a"), ("fermion", "c")], [("boson", "a"), ("spin", "s")],
+                 [("fermion", "c"), ("fermion", "d")], [("ladder", "l")], [("boson", "a"), ("boson", "b")]]
+    mk = rng.choice(modes_all)
+    modes = []
+    for kind, name in mk:
+        lo, hi = (0, 6) if kind == "boson" else (-4, 4) if kind == "ladder" else (0, 1)
+        modes.append(dict(kind=kind, name=name, lo=lo, hi=hi))
+    ops = core_nof.sympy_ops(modes)
+    states = core_nof.states_of(modes)
+    strides = []
+    for i in range(len(modes)):
+        st = 1
+        for mm in modes[i + 1:]:
+            st *= mm["hi"] - mm["lo"] + 1
+        strides.append(st)
+    Ns = [NumberOperator(o) for o in ops]
+
+    def h0(shift):
+        e = sympy.Rational(shift)
+        for q, n in enumerate(Ns):
+            w = sympy.Rational(rng.randint(2, 5), rng.choice([1, 3, 7]))
+            e = e + w * n
+            if modes[q]["kind"] in ("boson", "ladder") and rng.random() < 0.5:
+                e = e + sympy.Rational(1, rng.choice([3, 5, 7])) * n**2
+        return e
+
+    sizes = [rng.choice([1, 2]), rng.choice([1, 2])]
+    for _ in range(50):
+        eigs = tuple([h0(rng.choice([0, 0, 11, 13]) + 17 * b + 5 * a) for a in range(sizes[b])] for b in range(2))
+        # the property is about non-degenerate levels: no two DIFFERENT (entry, occupation) pairs may
+        # share an unperturbed energy on the window
+        seen = {}
+        clash = False
+        for b in range(2):
+            for a in range(sizes[b]):
+                for st_ in states:
+                    v = eigs[b][a].xreplace({n_: sympy.Integer(x) for n_, x in zip(Ns, st_)})
+                    v = sympy.nsimplify(v)
+                    if v in seen and seen[v] != (b, a, st_):
+                        clash = True
+                    seen[v] = (b, a, st_)
+        if not clash:
+            break
+    else:
+        raise common.Regenerate("degenerate levels")
+    solve = solve_sylvester_2nd_quant(eigs)
+
+    def rand_op():
+        terms = []
+        for _ in range(rng.randint(1, 3)):
+            t = sympy.Rational(rng.randint(-3, 3) or 1, rng.choice([1, 2]))
+            for q, o in enumerate(ops):
+                r = rng.random()
+                if r < 0.35:
+                    t = t * (o if rng.random() < 0.5 else Dagger(o))
+                elif r < 0.5 and modes[q]["kind"] == "boson":
+                    t = t * (o**2 if rng.random() < 0.5 else Dagger(o) ** 2)
+                elif r < 0.6:
+                    t = t * Ns[q]
+            terms.append(t)
+        return sum(terms, sympy.S.Zero)
+
+    i, j = rng.choice([(0, 1), (1, 0), (0, 0), (1, 1)])
+    Y = sympy.Matrix([[rand_op() for _ in range(sizes[j])] for _ in range(sizes[i])])
+    if i == j:
+        Y = Y + Dagger(Y)   # the library only asks for Hermitian right-hand sides on diagonal blocks
+    Yn = Y.applyfunc(lambda x: NOF.from_expr(x, operators=ops))
+    V = solve(Yn, (i, j, 1))
+    objs, checks = [], []
+
+    def add(x):
+        if not isinstance(x, NOF) or list(x.operators) != list(ops):
+            x = NOF.from_expr(x.as_expr() if isinstance(x, NOF) else sympy.sympify(x), operators=ops)
+        objs.append(core_nof.nof_record(x, ops, modes, states, p))
+        return len(objs)
+
+    for a in range(sizes[i]):
+        for b in range(sizes[j]):
+            kx, ky, kz, kw = add(eigs[i][a]), add(eigs[j][b]), add(V[a, b]), add(Yn[a, b])
+            kind = "sylvdiag" if (i == j and a == b) else "sylv"
+            checks.append(dict(kind=kind, x=kx, y=ky, z=kz, w=kw, tree=0, k=0, margin=3))
+    ses = dict(sid=sid, modes=[dict(kind=m["kind"], lo=m["lo"], hi=m["hi"]) for m in modes],
+               states=[list(s_) for s_ in states], strides=strides, objs=objs, trees=[], checks=checks)
+    meta = dict(gen="second_quant", modes=mk, index=(i, j), eigs=str(eigs), Y=str(Y))
+    return ses, meta
+
+
 GENERATORS = {
     "diag_dense": lambda rng, p: diag_calls(rng, p, "dense"),
     "diag_sparse": lambda rng, p: diag_calls(rng, p, "sparse"),
@@ -374,6 +471,30 @@ def run(pid, tier, seed, replay=None):
                 m = metas[s["sid"]]
                 violations.append(dict(kind="equation", gen=m["gen"], n=m["n"], clauses=fails[s["sid"]],
                                        calls=[m["calls"][ln - 1] for _, ln in fails[s["sid"]]]))
+    # ---- the second-quantised solver, judged in the Fock model (Trace_Fock) -------------
+    from . import core_nof
+
+    fock_sessions, fock_meta = [], {}
+    for n in range(per_kind if replay is None else 0):
+        rng = common.rng_for(seed, pid, "second_quant", n)
+        try:
+            fs, fm = second_quant_session(rng, 1000 + n, p)
+            fock_sessions.append(fs)
+            fock_meta[1000 + n] = fm
+            counts["second_quant"] = counts.get("second_quant", 0) + len(fs["checks"])
+        except common.Regenerate:
+            continue
+        except Exception as e:  # noqa: BLE001
+            violations.append(dict(kind="exception", gen="second_quant", n=n, error=f"{type(e).__name__}: {e}",
+                                   where=traceback.format_exc(limit=4)[-500:]))
+    if fock_sessions:
+        fres, fdone, ffails = core_nof.validate(fock_sessions)
+        stats["states"] += fres.distinct
+        stats["transitions"] += fres.generated
+        for fs in fock_sessions:
+            if ffails.get(fs["sid"]):
+                violations.append(dict(kind="operator_identity", gen="second_quant", n=fs["sid"] - 1000,
+                                       clauses=ffails[fs["sid"]], meta=fock_meta[fs["sid"]]))
     control = None
     if replay is None and sessions:
         bad = copy.deepcopy(next(s for s in sessions if s["calls"][0]["kind"] == "diag"))
@@ -394,7 +515,7 @@ def run(pid, tier, seed, replay=None):
     ncalls = sum(len(s["calls"]) for s in sessions)
     coverage = dict(
         states=max(stats["states"], 1), transitions=max(stats["transitions"], 1),
-        traces_validated_against_impl=len(sessions),
+        traces_validated_against_impl=len(sessions) + len(fock_sessions),
         samples=[metas[s["sid"]] for s in sessions[:1]] + [metas[s["sid"]] for s in sessions[-1:]] or [dict(note="none")],
         evaluations=ncalls, distinct_nontrivial=len({w for m in metas.values() for w in m["calls"]}),
         rule="one evaluation = one solver call (generator kind, instance, right-hand side, block index); distinct by the "
